@@ -42,6 +42,7 @@ type C16Op struct {
 }
 
 type C16Case struct {
+	Linked bool `json:"history_is_link,omitempty"` // the history path is a symbolic link to the real file (dotfile managers)
 	Path int `json:"path,omitempty"` // index into c16Paths
 	// Sched: schedule vector for goroutines / channels / select choices of the code under test (single-task case body = first task)
 	Sched   []uint16 `json:"sched,omitempty"`
@@ -85,6 +86,7 @@ func genC16(rt *rapid.T) C16Case {
 	}
 	c.Max = rapid.SampledFrom([]int{1, 2, 3, 5, 100, 0, -4}).Draw(rt, "max")
 	c.Path = rapid.IntRange(0, len(c16Paths)-1).Draw(rt, "path")
+	c.Linked = rapid.IntRange(0, 5).Draw(rt, "linked") == 0
 	pool := []string{"disk usage", "git commit", "compress files", "find large files", "Disk Usage", "x", "größe anzeigen", "tab\tnew\nline", "quote\"back\\slash", "", " ", "bad\xffutf8"}
 	nq := rapid.IntRange(1, 5).Draw(rt, "nq")
 	for i := 0; i < nq; i++ {
@@ -302,6 +304,9 @@ func runC16Body(c C16Case) *Outcome {
 	simos.Mount(disk, nil)
 	defer simos.Unmount()
 	simos.SetClock(simtime.Now)
+	if c.Linked {
+		disk.SymlinkRaw(c16Path, "history.real.json") // dangling until the first save; a save may replace it by a file
+	}
 	var log []string
 	fail := func(sig, f string, a ...any) *Outcome {
 		o.Violation = fmt.Sprintf(f, a...) + "\n  history file " + strconv.Quote(c16Path) + "\n  history: " + strings.Join(log, " ; ")
